@@ -2,6 +2,7 @@
 // Compiled with -fsanitize=thread (own runtime) and the renaming shim, like the library sources.
 #include <nstd/Mutex.hpp>
 #include <nstd/Semaphore.hpp>
+#include <errno.h>
 #include <nstd/Signal.hpp>
 #include <nstd/Monitor.hpp>
 #include <nstd/Thread.hpp>
@@ -63,7 +64,15 @@ static void scenMutex(int variant)
 // ------------------------------------------------------------------------------------------------ Semaphore
 static Semaphore* g_sem;
 static void gotOne() { if(++successes > initialCount + signalsStarted) vf_failf("C11:semaphore:conservation", "%d successful waits with initial value %d and %d signals", successes, initialCount, signalsStarted); }
-static uint semWaiter(void*) { if(g_sem->wait()) gotOne(); else vf_failf("C11:semaphore:wait-failed", "wait() returned false"); return 0; }
+static uint semWaiter(void*)
+{ // an interrupted wait (EINTR deviation) may report false - the property only forbids a success without a unit - and is repeated
+  for(;;)
+  {
+    errno = 0;
+    if(g_sem->wait()) { gotOne(); return 0; }
+    if(errno != EINTR) { vf_failf("C11:semaphore:wait-failed", "wait() returned false"); return 0; }
+  }
+}
 static uint semSignaler(void*) { ++signalsStarted; g_sem->signal(); return 0; }
 static uint semTryWaiter(void*) { long b0 = vf_my_block_count(); bool ok = g_sem->tryWait(); if(vf_my_block_count() != b0) vf_failf("C11:semaphore:tryWait-blocked", "tryWait blocked"); if(ok) gotOne(); results[vf_thread_id()] = ok; return 0; }
 static uint semTimedWaiter(void* p)
